@@ -110,15 +110,22 @@ func histories() []history {
 // tracker follows, from the hook, which files have unsynced writes.
 type tracker struct {
 	crashAt int
+	faultAt int // this step returns an I/O error instead (0 = never)
 	dirty   map[string]bool
 	synced  map[string]int64
 	lastOp  string
 }
 
+var errInjected = errors.New("injected I/O error (disk full)")
+
 func (t *tracker) hook(s vos.StepInfo) error {
 	if s.N == t.crashAt {
 		t.lastOp = s.Op
 		panic(vos.Crash{Step: s.N})
+	}
+	if t.faultAt > 0 && s.N == t.faultAt {
+		t.lastOp = s.Op
+		return errInjected
 	}
 	switch s.Op {
 	case "write", "writefile", "truncate":
@@ -502,9 +509,84 @@ func runCrash(res *core.Result, shard, shards int) {
 			})
 		}
 	}
+	// an I/O error (disk full, quota) at every step instead of a crash
+	for _, h := range histories() {
+		h := h
+		if !core.Want("crash/"+h.name) || len(h.ops) > 4 {
+			continue
+		}
+		ref, total, err := references(&h)
+		if err != nil {
+			res.Fault = err.Error()
+			return
+		}
+		for k := 1; k <= total; k++ {
+			idx++
+			if shards > 1 && idx%shards != shard {
+				continue
+			}
+			points++
+			runs++
+			o, v := checkFaultPoint(&h, k, ref)
+			if v != nil {
+				v.Sub = "crash"
+				res.Violate(*v)
+				continue
+			}
+			out.Add(o)
+		}
+	}
 	res.AddSub(core.Sub{Name: "crash", States: points, Transitions: runs, Executions: runs, Outcomes: out.N(),
-		Exhaustive: complete, Bound: fmt.Sprintf("%d histories of 1-8 real operations; crash before every vos step and after the last; process + power-failure materialisations", len(histories())),
+		Exhaustive: complete, Bound: fmt.Sprintf("%d histories of 1-8 real operations; crash before every vos step and after the last; process + power-failure materialisations; an I/O error at every step of the histories of <=4 operations", len(histories())),
 		Samples: samples, WallS: time.Since(start).Seconds()})
+}
+
+// checkFaultPoint runs h with an I/O error returned by step k (instead of a
+// crash): the operation that sees it either fails, leaving the definition
+// before or after it, or is acknowledged with the complete new definition;
+// the history stops there.  What a restart (and every reader) then finds must
+// be one of those complete definitions.
+func checkFaultPoint(h *history, k int, ref []string) (string, *core.Violation) {
+	freshWorld(h.withGroup)
+	tr := &tracker{faultAt: k, dirty: map[string]bool{}, synced: map[string]int64{}}
+	vos.SetHook(tr.hook)
+	acked, failed := 0, ""
+	for _, op := range h.ops {
+		if e := op.run(); e != nil {
+			failed = op.name
+			break
+		}
+		acked++
+		if tr.lastOp != "" {
+			break // the faulted operation was acknowledged: stop here
+		}
+	}
+	vos.SetHook(nil)
+	if tr.lastOp == "" {
+		return "fault-not-reached", nil
+	}
+	got, detail := recoveredState(h.groups)
+	allowed := map[string]bool{ref[acked]: true}
+	if failed != "" && acked+1 < len(ref) {
+		allowed[ref[acked+1]] = true
+	}
+	if !allowed[got] {
+		kind := "partial-file"
+		if strings.Contains(got, "UNREADABLE") {
+			kind = "unparseable-file"
+		} else if failed == "" {
+			kind = "acknowledged-but-not-stored"
+		}
+		ack := "acknowledged"
+		if failed != "" {
+			ack = "refused"
+		}
+		return "", &core.Violation{Signature: fmt.Sprintf("C18/fault/%s/at-%s", kind, tr.lastOp),
+			What: fmt.Sprintf("history %s: an I/O error at file-system step %d (%s) inside an update that was %s: readers and a restart now find %s %s— not a complete definition from before or after the update",
+				h.name, k, tr.lastOp, ack, clip(got, 300), detail),
+			Replay: crashCase{h.name, k, "fault", tr.lastOp}}
+	}
+	return fmt.Sprintf("fault/%s/%v", tr.lastOp, failed == ""), nil
 }
 
 // replayCrash re-runs one crash point.
@@ -517,6 +599,10 @@ func replayCrash(cc crashCase) *core.Violation {
 		ref, _, err := references(&h)
 		if err != nil {
 			return &core.Violation{Signature: "C18/crash/reference", What: err.Error()}
+		}
+		if cc.Model == "fault" {
+			_, v := checkFaultPoint(&h, cc.CrashAt, ref)
+			return v
 		}
 		var first *core.Violation
 		checkCrashPoint(&h, cc.CrashAt, ref, func(o string, v *core.Violation) {
